@@ -132,11 +132,18 @@ class Interp(ExprMixin):
         if fr.old is None:
             raise Unsupported("old() outside a postcondition")
         saved = fr.env
+        saved_heap = getattr(self, "opaque_heap", None)
         fr.env = fr.old
+        if saved_heap is not None and getattr(self, "opaque_heap_old", None) == "initial":
+            self.opaque_heap = {}           # initial (unwritten) attribute arrays
         try:
             return self.ev(expr)
         finally:
             fr.env = saved
+            if saved_heap is not None:
+                for k_, v_ in self.opaque_heap.items():
+                    saved_heap.setdefault(k_, v_)
+                self.opaque_heap = saved_heap
 
     def eval_quant(self, kind, node):
         # forall(lo, hi, lambda i: body)  /  forall(lambda i: body) with explicit guard inside
